@@ -1,5 +1,8 @@
 import HbsModel.Registry
 import HbsModel.Lemmas.IfBlock
+import HbsModel.Lemmas.IfBodyBlock
+import HbsModel.Lemmas.UnlessBodyBlock
+import HbsModel.Lemmas.WithBodyBlock
 import HbsModel.Lemmas.IfElseBlock
 import HbsModel.Lemmas.UnlessBlock
 import HbsModel.Lemmas.WithBlock
@@ -669,5 +672,311 @@ theorem with_block_renders_by_truthiness (r : Registry) (fs : FS) (L R : Str) (d
   rw [this, htxt]
 
 example : assocGet Registry.new.helpers ['w', 'i', 't', 'h'] = some .withH := by rfl
+
+/-! ### `{{#if v}}` X `{{/if}}` for every body text X – at source level -/
+
+/-- the block element `{{#if v}}A{{/if}}` compiles to writes `A` when `data.v` is truthy and nothing otherwise – and leaves
+    the render state as it was (up to the write flags) -/
+theorem if_block_writes_any_body (X : Str) (reg : Registry) (root j : Json) (rc0 : RC) (lc : Nat × Nat)
+    (hb : rc0.blocks = [{}]) (hi : rc0.indentString = none) (hmc : rc0.modifiedCtx = none) (hct : rc0.currentTemplate = none)
+    (hl : assocGet rc0.localHelpers ['i', 'f'] = none) (hr : assocGet reg.helpers ['i', 'f'] = some (.ifH true))
+    (hsafe : Spec.indexSafe root [['v']] = true) (hj : Spec.descend root [['v']] = some j) :
+    WritesText reg root rc0 (.block (PlainText.ifHT (PlainText.ifBodyX X lc))) (if j.truthy false then X else []) := by
+  intro fuel rc out hq hf
+  have hblocks : rc.blocks = [{}] := by rw [hq.blocks, hb]
+  have hev : evaluate2 root (.relative [.named ['v']] ['v']) rc out = .ok (.context j [['v']]) rc out := by
+    have := C01.navigate_current_path_scope root {} [] ['v'] [] rc out (by simp [getInBlockParams, assocGet]) rfl (by simpa using hsafe)
+    simp only [C01.names, List.map_cons, List.map_nil] at this
+    simp only [evaluate2, RM.bind_def, RM.bnd_apply, RM.get_apply, hblocks, this, C01.blockValue, Spec.descend]
+    simp only [Option.bind]
+    have hj' : (Spec.step root ['v']).bind (fun v' => Spec.descend v' []) = some j := by simpa [Spec.descend] using hj
+    simp [Spec.descend] at hj' ⊢
+    rw [hj']
+  have hmc' : rc.modifiedCtx = none := by rw [hq]; exact hmc
+  have hl' : assocGet rc.localHelpers ['i', 'f'] = none := by rw [hq]; exact hl
+  have hpath : Path.new ['v'] [.named ['v']] = .relative [.named ['v']] ['v'] := rfl
+  -- the helper as evaluated
+  have hh : helperFromTemplate reg root (fuel + 4) (PlainText.ifHT (PlainText.ifBodyX X lc)) rc out
+      = .ok { name := ['i', 'f'], params := [⟨some ['v'], .context j [['v']]⟩], hash := [], template := some (PlainText.ifBodyX X lc),
+              inverse := none, blockParam := none, block := true } rc out := by
+    simp [helperFromTemplate, PlainText.ifHT, PlainText.ifOpen, HelperG.new, expandAsName, expandParams, expandParam, expandHash,
+      RM.bnd_apply, hmc', hpath, hev, Path.raw]
+  -- the state the helper is called in, and the one after the call
+  let rc1 : RC := { rc with contentProduced := false, indentBeforeWrite := rc.indentBeforeWrite || (false && rc.trailingNewline) }
+  have hq1 : Quiet rc0 rc1 := hq.flags _ _ _
+  have hm1 := quiet_modifyAux rc0 rc (fun r => { r with contentProduced := false, indentBeforeWrite := rc.indentBeforeWrite || ((PlainText.ifHT (PlainText.ifBodyX X lc)).indentBeforeWrite && r.trailingNewline) }) out hq (hq.flags _ _ _)
+  have hcall := if_renders_selected reg root (fuel + 3) true { name := ['i', 'f'], params := [⟨some ['v'], .context j [['v']]⟩], hash := [], template := some (PlainText.ifBodyX X lc), inverse := none, blockParam := none, block := true } ⟨some ['v'], .context j [['v']]⟩ [] rfl
+  have hc4 : callHelper reg root (fuel + 4) (.ifH true) { name := ['i', 'f'], params := [⟨some ['v'], .context j [['v']]⟩], hash := [], template := some (PlainText.ifBodyX X lc), inverse := none, blockParam := none, block := true } = _ := hcall
+  simp only [renderElem, renderHelper, RM.bind_def, RM.bnd_apply, hh, RM.get_apply, hl', hr, hm1, hc4]
+  have hz : ((assocGet ([] : List (Str × PJ)) (str "includeZero")).bind fun x => x.json.asBool?).getD false = false := by simp [assocGet]
+  have hjs : ({ relPath := some ['v'], value := SJ.context j [['v']] } : PJ).json = j := rfl
+  have hibw : (PlainText.ifHT (PlainText.ifBodyX X lc)).indentBeforeWrite = false := rfl
+  simp only [hz, hjs, if_true, hibw, Bool.false_and, Bool.or_false]
+  by_cases ht : j.truthy false = true
+  · simp only [ht, if_true]
+    -- the body: one text element, rendered with the current template name handed over and back
+    have hqA : Quiet rc0 { rc with contentProduced := false } := hq.flags _ _ _
+    have hqB : Quiet rc0 { rc with contentProduced := false, currentTemplate := none } := by
+      have := Quiet.setTemplate hqA
+      rw [hct] at this
+      exact this
+    obtain ⟨rc2, out2, hw, hq2, hf2, ht2⟩ := indentAwareWrite_quiet rc0 hi X _ out hqB hf
+    have hmA := quiet_modifyAux rc0 { rc with contentProduced := false } (fun r => { r with currentTemplate := (PlainText.ifBodyX X lc).name }) out hqA hqB
+    have hq3 : Quiet rc0 { rc2 with currentTemplate := rc.currentTemplate } := by
+      have := Quiet.setTemplate hq2
+      rw [← Quiet.template hq] at this
+      exact this
+    have hmB := quiet_modifyAux rc0 rc2 (fun r => { r with currentTemplate := rc.currentTemplate }) out2 hq2 hq3
+    have hbody : renderTemplate reg root (fuel + 3) (PlainText.ifBodyX X lc) { rc with contentProduced := false } out
+        = .ok () { rc2 with currentTemplate := rc.currentTemplate } out2 := by
+      simp only [renderTemplate, RM.bind_def, RM.bnd_apply, RM.get_apply, hmA]
+      simp only [PlainText.ifBodyX, Tmpl.empty, Tmpl.pushElement, Tmpl.name, Tmpl.elements, Tmpl.mapping, List.nil_append, renderElems,
+        renderElem, RM.bind_def, RM.bnd_apply, RM.mapErr, hw, RM.pure_def, RM.ret_apply, Option.isNone_none]
+      simp only [↓reduceIte]
+      exact hmB
+    rw [hbody]
+    simp only []
+    have hqG : Quiet rc0 ((fun rc_1 : RC => if rc_1.contentProduced = true then { rc_1 with indentBeforeWrite := rc_1.trailingNewline } else { rc_1 with contentProduced := rc.contentProduced, indentBeforeWrite := rc.indentBeforeWrite }) { rc2 with currentTemplate := rc.currentTemplate }) := by
+      by_cases hcp : rc2.contentProduced = true
+      · simp only [hcp, ↓reduceIte]; exact Quiet.flags hq3 _ _ _
+      · simp only [hcp, ↓reduceIte]; exact Quiet.flags hq3 _ _ _
+    exact ⟨_, _, quiet_modifyAux rc0 _ _ out2 hq3 hqG, hqG, hf2, ht2⟩
+  · simp only [ht, Bool.false_eq_true, if_false]
+    have hqA : Quiet rc0 { rc with contentProduced := false } := hq.flags _ _ _
+    have hqG : Quiet rc0 ((fun rc_1 : RC => if rc_1.contentProduced = true then { rc_1 with indentBeforeWrite := rc_1.trailingNewline } else { rc_1 with contentProduced := rc.contentProduced, indentBeforeWrite := rc.indentBeforeWrite }) { rc with contentProduced := false }) := by
+      simp only [Bool.false_eq_true, ↓reduceIte]; exact Quiet.flags hqA _ _ _
+    exact ⟨_, _, quiet_modifyAux rc0 _ _ out hqA hqG, hqG, hf, by simp⟩
+
+/-- `{{#if v}}` X `{{/if}}` -/
+abbrev ifBlockSrcX (X : Str) : Str := PlainText.ifXSrc X
+
+/-- **render(L ++ {{#if v}} X {{/if}} ++ R) = L ++ (X when data.v is truthy, nothing otherwise) ++ R for EVERY body text X** (without `{{` and backslashes, beginning and ending with a non-whitespace character) – from the source string to
+    the bytes, for EVERY text `L` that may stand before a tag, EVERY text `R` without `{{` and every data value: the block
+    renders its body exactly when the condition is truthy, and the text around it – whitespace and line breaks next to the
+    block tags included, since neither tag stands alone on its line – is reproduced verbatim.  Through the regenerated grammar
+    (the opening and closing tags decided by the known-prefix evaluator, the body by the text lemmas, the block assembled on the normal form of `helper_block`: `Lemmas/IfBodyTag.lean`), four iterations of the loop of compile2 (block start, body template, body text, block end,
+    with the standalone-line test at both tags) and the renderer (`renderHelper`, the `if` helper, the body template). -/
+theorem if_block_any_body_renders_by_truthiness (r : Registry) (fs : FS) (X L R : Str) (hX : PlainText.BlockText X) (data j : Json) (hdev : r.dev = false)
+    (hL : L = [] ∨ PlainText.TextBeforeTag L) (hR : PlainText.noOpen R)
+    (hif : assocGet r.helpers ['i', 'f'] = some (.ifH true))
+    (hsafe : Spec.indexSafe data [['v']] = true) (hj : Spec.descend data [['v']] = some j) :
+    r.renderTemplate fs (L ++ ifBlockSrcX X ++ R) data = .ok (L ++ (if j.truthy false then X else []) ++ R) := by
+  unfold Registry.renderTemplate Registry.renderTemplateToWrite Registry.renderTemplateWithContextToWrite
+    Registry.compileForRenderTemplate
+  obtain ⟨m, hcomp⟩ := PlainText.compile_text_ifX_text X L _ _ { preventIndent := r.preventIndent } hX hL (PlainText.textAfterTag_split R hR)
+  rw [← PlainText.split_ws R] at hcomp
+  rw [hcomp]
+  simp only [Registry.renderResolved, hdev, Bool.not_false, ↓reduceIte]
+  generalize Pest.lineCol (L ++ PlainText.ifXSrc X ++ R) (L.length + 9) = lc
+  let txt : Str := if j.truthy false then X else []
+  let ets : List (Elem × Str) := (if L = [] then [] else [(.raw L, L)]) ++ [(.block (PlainText.ifHT (PlainText.ifBodyX X lc)), txt)]
+    ++ (if R = [] then [] else [(.raw R, R)])
+  have hel : (PlainText.leftT L L).elements ++ [Elem.block (PlainText.ifHT (PlainText.ifBodyX X lc))] ++ (if R = [] then [] else [Elem.raw R])
+      = ets.map (·.1) := by
+    simp only [ets]
+    by_cases hLe : L = [] <;> by_cases hRe : R = [] <;> simp [hLe, hRe, PlainText.leftT, Tmpl.empty, Tmpl.elements]
+  have htxt : (ets.map (·.2)).flatten = L ++ txt ++ R := by
+    simp only [ets]
+    by_cases hLe : L = [] <;> by_cases hRe : R = [] <;> simp [hLe, hRe]
+  rw [hel]
+  have hw : ∀ p ∈ ets, WritesText r data { ({ rootTemplate := none } : RC) with currentTemplate := none } p.1 p.2 := by
+    intro p hp
+    simp only [ets, List.mem_append, List.mem_singleton] at hp
+    rcases hp with (hp | rfl) | hp
+    · split at hp
+      · simp at hp
+      · simp at hp; subst hp; exact writes_raw r data _ rfl L
+    · exact if_block_writes_any_body X r data j _ lc rfl rfl rfl rfl rfl hif hsafe hj
+    · split at hp
+      · simp at hp
+      · simp at hp; subst hp; exact writes_raw r data _ rfl R
+  have hlen : ets.length + 12 ≤ renderFuel := by
+    have h1 : (if L = [] then [] else [((Elem.raw L, L) : Elem × Str)]).length ≤ 1 := by split <;> simp
+    have h2 : (if R = [] then [] else [((Elem.raw R, R) : Elem × Str)]).length ≤ 1 := by split <;> simp
+    simp only [ets, List.length_append, List.length_singleton]
+    have : renderFuel = 4000 := rfl
+    omega
+  have := render_writes_template r data none ets m { rootTemplate := none } hlen hw
+  simp only [Tmpl.name] at this ⊢
+  rw [this, htxt]
+
+
+
+/-! ### `{{#unless v}}` X `{{/unless}}` and `{{#with v}}` X `{{/with}}` for every body text X -/
+
+abbrev unlessBlockSrcX (X : Str) : Str := PlainText.unXSrc X
+
+/-- **render(L ++ {{#unless v}} X {{/unless}} ++ R) = L ++ (X when data.v is FALSY, nothing otherwise) ++ R** – from the source string to
+    the bytes, for every text `L`, `R` and every data value: `unless` is the negation of `if` -/
+theorem unless_block_any_body_renders_by_falsiness (r : Registry) (fs : FS) (X L R : Str) (hX : PlainText.BlockText X) (data j : Json) (hdev : r.dev = false)
+    (hL : L = [] ∨ PlainText.TextBeforeTag L) (hR : PlainText.noOpen R)
+    (hun : assocGet r.helpers ['u', 'n', 'l', 'e', 's', 's'] = some (.ifH false))
+    (hsafe : Spec.indexSafe data [['v']] = true) (hj : Spec.descend data [['v']] = some j) :
+    r.renderTemplate fs (L ++ unlessBlockSrcX X ++ R) data = .ok (L ++ (if j.truthy false then [] else X) ++ R) := by
+  unfold Registry.renderTemplate Registry.renderTemplateToWrite Registry.renderTemplateWithContextToWrite
+    Registry.compileForRenderTemplate
+  obtain ⟨m, hcomp⟩ := PlainText.compile_text_unX_text X L _ _ { preventIndent := r.preventIndent } hX hL (PlainText.textAfterTag_split R hR)
+  rw [← PlainText.split_ws R] at hcomp
+  rw [hcomp]
+  simp only [Registry.renderResolved, hdev, Bool.not_false, ↓reduceIte]
+  generalize Pest.lineCol (L ++ PlainText.unXSrc X ++ R) (L.length + 13) = lc
+  let txt : Str := if j.truthy false then [] else X
+  let ets : List (Elem × Str) := (if L = [] then [] else [(.raw L, L)]) ++ [(.block (PlainText.unHT (PlainText.unBodyX X lc)), txt)]
+    ++ (if R = [] then [] else [(.raw R, R)])
+  have hel : (PlainText.leftT L L).elements ++ [Elem.block (PlainText.unHT (PlainText.unBodyX X lc))] ++ (if R = [] then [] else [Elem.raw R])
+      = ets.map (·.1) := by
+    simp only [ets]
+    by_cases hLe : L = [] <;> by_cases hRe : R = [] <;> simp [hLe, hRe, PlainText.leftT, Tmpl.empty, Tmpl.elements]
+  have htxt : (ets.map (·.2)).flatten = L ++ txt ++ R := by
+    simp only [ets]
+    by_cases hLe : L = [] <;> by_cases hRe : R = [] <;> simp [hLe, hRe]
+  rw [hel]
+  have hw : ∀ p ∈ ets, WritesText r data { ({ rootTemplate := none } : RC) with currentTemplate := none } p.1 p.2 := by
+    intro p hp
+    simp only [ets, List.mem_append, List.mem_singleton] at hp
+    rcases hp with (hp | rfl) | hp
+    · split at hp
+      · simp at hp
+      · simp at hp; subst hp; exact writes_raw r data _ rfl L
+    · have := cond_text_block_writes false ['u', 'n', 'l', 'e', 's', 's'] r data j { ({ rootTemplate := none } : RC) with currentTemplate := none }
+        (PlainText.unHT (PlainText.unBodyX X lc)) X lc rfl rfl rfl rfl rfl rfl rfl rfl rfl rfl hun hsafe hj
+      have e : (if (if false = true then j.truthy false else !j.truthy false) = true then X else []) = txt := by
+        simp only [txt]
+        cases j.truthy false <;> simp
+      rw [e] at this
+      exact this
+    · split at hp
+      · simp at hp
+      · simp at hp; subst hp; exact writes_raw r data _ rfl R
+  have hlen : ets.length + 12 ≤ renderFuel := by
+    have h1 : (if L = [] then [] else [((Elem.raw L, L) : Elem × Str)]).length ≤ 1 := by split <;> simp
+    have h2 : (if R = [] then [] else [((Elem.raw R, R) : Elem × Str)]).length ≤ 1 := by split <;> simp
+    simp only [ets, List.length_append, List.length_singleton]
+    have : renderFuel = 4000 := rfl
+    omega
+  have := render_writes_template r data none ets m { rootTemplate := none } hlen hw
+  simp only [Tmpl.name] at this ⊢
+  rw [this, htxt]
+
+
+
+/-- the block element `{{#with v}} X {{/with}}` compiles to (non-strict mode): the body – rendered in the scope of the value – is
+    written when `data.v` is truthy, nothing otherwise; the scope pushed for the body is popped again -/
+theorem with_any_text_block_writes (X : Str) (reg : Registry) (root j : Json) (rc0 : RC) (lc : Nat × Nat) (hstrict : reg.strict = false)
+    (hb : rc0.blocks = [{}]) (hi : rc0.indentString = none) (hmc : rc0.modifiedCtx = none) (hct : rc0.currentTemplate = none)
+    (hl : assocGet rc0.localHelpers ['w', 'i', 't', 'h'] = none) (hr : assocGet reg.helpers ['w', 'i', 't', 'h'] = some .withH)
+    (hsafe : Spec.indexSafe root [['v']] = true) (hj : Spec.descend root [['v']] = some j) :
+    WritesText reg root rc0 (.block (PlainText.wiHT (PlainText.wiBodyX X lc))) (if j.truthy false then X else []) := by
+  intro fuel rc out hq hf
+  have hblocks : rc.blocks = [{}] := by rw [hq.blocks, hb]
+  have hev : evaluate2 root (.relative [.named ['v']] ['v']) rc out = .ok (.context j [['v']]) rc out := by
+    have := C01.navigate_current_path_scope root {} [] ['v'] [] rc out (by simp [getInBlockParams, assocGet]) rfl (by simpa using hsafe)
+    simp only [C01.names, List.map_cons, List.map_nil] at this
+    simp only [evaluate2, RM.bind_def, RM.bnd_apply, RM.get_apply, hblocks, this, C01.blockValue, Spec.descend]
+    simp only [Option.bind]
+    have hj' : (Spec.step root ['v']).bind (fun v' => Spec.descend v' []) = some j := by simpa [Spec.descend] using hj
+    simp [Spec.descend] at hj' ⊢
+    rw [hj']
+  have hmc' : rc.modifiedCtx = none := by rw [hq]; exact hmc
+  have hl' : assocGet rc.localHelpers ['w', 'i', 't', 'h'] = none := by rw [hq]; exact hl
+  have hpath : Path.new ['v'] [.named ['v']] = .relative [.named ['v']] ['v'] := rfl
+  have hh : helperFromTemplate reg root (fuel + 4) (PlainText.wiHT (PlainText.wiBodyX X lc)) rc out
+      = .ok { name := ['w', 'i', 't', 'h'], params := [⟨some ['v'], .context j [['v']]⟩], hash := [], template := some (PlainText.wiBodyX X lc), inverse := none, blockParam := none, block := true } rc out := by
+    simp [helperFromTemplate, PlainText.wiHT, PlainText.wiOpen, HelperG.new, expandAsName, expandParams, expandParam, expandHash,
+      RM.bnd_apply, hmc', hpath, hev, Path.raw]
+  have hm1 := quiet_modifyAux rc0 rc (fun r => { r with contentProduced := false, indentBeforeWrite := rc.indentBeforeWrite || ((PlainText.wiHT (PlainText.wiBodyX X lc)).indentBeforeWrite && r.trailingNewline) }) out hq (hq.flags _ _ _)
+  simp only [renderElem, renderHelper, RM.bind_def, RM.bnd_apply, hh, RM.get_apply, hl', hr, hm1]
+  have hibw : (PlainText.wiHT (PlainText.wiBodyX X lc)).indentBeforeWrite = false := rfl
+  simp only [hibw, Bool.false_and, Bool.or_false]
+  have hqA : Quiet rc0 { rc with contentProduced := false } := hq.flags _ _ _
+  let rcA : RC := { rc with contentProduced := false }
+  have finish : ∀ (rc2 : RC) (out2 : Out) (txt : Str), Quiet rc0 rc2 → out2.failAt = none → out2.text = out.text ++ txt →
+      ∃ rc' out', RM.modifyAux (fun rc_1 : RC => if rc_1.contentProduced = true then { rc_1 with indentBeforeWrite := rc_1.trailingNewline } else { rc_1 with contentProduced := rc.contentProduced, indentBeforeWrite := rc.indentBeforeWrite }) rc2 out2 = .ok () rc' out'
+        ∧ Quiet rc0 rc' ∧ out'.failAt = none ∧ out'.text = out.text ++ txt := by
+    intro rc2 out2 txt hq2 hf2 ht2
+    have hqG : Quiet rc0 ((fun rc_1 : RC => if rc_1.contentProduced = true then { rc_1 with indentBeforeWrite := rc_1.trailingNewline } else { rc_1 with contentProduced := rc.contentProduced, indentBeforeWrite := rc.indentBeforeWrite }) rc2) := by
+      by_cases hcp : rc2.contentProduced = true
+      · simp only [hcp, ↓reduceIte]; exact Quiet.flags hq2 _ _ _
+      · simp only [hcp, ↓reduceIte]; exact Quiet.flags hq2 _ _ _
+    exact ⟨_, _, quiet_modifyAux rc0 _ _ out2 hq2 hqG, hqG, hf2, ht2⟩
+  by_cases ht : j.truthy false = true
+  · -- truthy: the body in the pushed scope
+    let rcP : RC := { rcA with blocks := { basePath := [['v']] } :: rcA.blocks }
+    obtain ⟨rc2, out2, hbody, hq2, hf2, ht2⟩ := render_text_template reg root rcP rcP out X lc fuel
+      (by show rc.indentString = none; rw [hq.indent]; exact hi) (by show rc.currentTemplate = none; rw [Quiet.template hq]; exact hct) (Quiet.refl _) hf
+    have hcall : callHelper reg root (fuel + 4) .withH { name := ['w', 'i', 't', 'h'], params := [⟨some ['v'], .context j [['v']]⟩], hash := [], template := some (PlainText.wiBodyX X lc), inverse := none, blockParam := none, block := true } rcA out
+        = .ok () { rc2 with blocks := rc2.blocks.drop 1 } out2 := by
+      rw [show fuel + 4 = (fuel + 3) + 1 by omega]
+      simp only [callHelper, HelperKind.hasInner, Bool.false_eq_true, ↓reduceIte, List.getElem?_cons_zero, PJ.json, SJ.asJson, ht, PJ.contextPath,
+        SJ.contextPath, createBlock, HelperI.blockParam1, RM.withBlock, RM.bracket_apply]
+      unfold PlainText.wiBodyX
+      rw [hbody]
+    rw [hcall]
+    simp only [ht, if_true]
+    have hq4 : Quiet rc0 { rc2 with blocks := rc2.blocks.drop 1 } := by
+      have hrcA : Quiet rc0 rcA := hqA
+      unfold Quiet at hq2 hrcA ⊢
+      rw [hq2]
+      simp only [rcP, List.drop_succ_cons, List.drop_zero]
+      rw [hrcA]
+    exact finish _ out2 X hq4 hf2 ht2
+  · have hcall : callHelper reg root (fuel + 4) .withH { name := ['w', 'i', 't', 'h'], params := [⟨some ['v'], .context j [['v']]⟩], hash := [], template := some (PlainText.wiBodyX X lc), inverse := none, blockParam := none, block := true } rcA out
+        = .ok () rcA out := by
+      rw [show fuel + 4 = (fuel + 3) + 1 by omega]
+      simp [callHelper, HelperKind.hasInner, PJ.json, SJ.asJson, ht, hstrict]
+    rw [hcall]
+    simp only [ht, Bool.false_eq_true, if_false]
+    exact finish rcA out [] hqA hf (by simp)
+
+/-- `{{#with v}} X {{/with}}` -/
+abbrev withBlockSrcX (X : Str) : Str := PlainText.wiXSrc X
+
+/-- **render(L ++ {{#with v}} X {{/with}} ++ R) = L ++ (A when data.v is truthy, nothing otherwise) ++ R** in non-strict mode – from the
+    source string to the bytes, for every text `L`, `R` and every data value: `with` selects by the same truthiness as `if`
+    (0 is falsy), renders its body in the scope of the value and leaves the caller's scope as it was -/
+theorem with_block_any_body_renders_by_truthiness (r : Registry) (fs : FS) (X L R : Str) (hX : PlainText.BlockText X) (data j : Json) (hdev : r.dev = false)
+    (hstrict : r.strict = false)
+    (hL : L = [] ∨ PlainText.TextBeforeTag L) (hR : PlainText.noOpen R)
+    (hwith : assocGet r.helpers ['w', 'i', 't', 'h'] = some .withH)
+    (hsafe : Spec.indexSafe data [['v']] = true) (hj : Spec.descend data [['v']] = some j) :
+    r.renderTemplate fs (L ++ withBlockSrcX X ++ R) data = .ok (L ++ (if j.truthy false then X else []) ++ R) := by
+  unfold Registry.renderTemplate Registry.renderTemplateToWrite Registry.renderTemplateWithContextToWrite
+    Registry.compileForRenderTemplate
+  obtain ⟨m, hcomp⟩ := PlainText.compile_text_wiX_text X L _ _ { preventIndent := r.preventIndent } hX hL (PlainText.textAfterTag_split R hR)
+  rw [← PlainText.split_ws R] at hcomp
+  rw [hcomp]
+  simp only [Registry.renderResolved, hdev, Bool.not_false, ↓reduceIte]
+  generalize Pest.lineCol (L ++ PlainText.wiXSrc X ++ R) (L.length + 11) = lc
+  let txt : Str := if j.truthy false then X else []
+  let ets : List (Elem × Str) := (if L = [] then [] else [(.raw L, L)]) ++ [(.block (PlainText.wiHT (PlainText.wiBodyX X lc)), txt)]
+    ++ (if R = [] then [] else [(.raw R, R)])
+  have hel : (PlainText.leftT L L).elements ++ [Elem.block (PlainText.wiHT (PlainText.wiBodyX X lc))] ++ (if R = [] then [] else [Elem.raw R])
+      = ets.map (·.1) := by
+    simp only [ets]
+    by_cases hLe : L = [] <;> by_cases hRe : R = [] <;> simp [hLe, hRe, PlainText.leftT, Tmpl.empty, Tmpl.elements]
+  have htxt : (ets.map (·.2)).flatten = L ++ txt ++ R := by
+    simp only [ets]
+    by_cases hLe : L = [] <;> by_cases hRe : R = [] <;> simp [hLe, hRe]
+  rw [hel]
+  have hw : ∀ p ∈ ets, WritesText r data { ({ rootTemplate := none } : RC) with currentTemplate := none } p.1 p.2 := by
+    intro p hp
+    simp only [ets, List.mem_append, List.mem_singleton] at hp
+    rcases hp with (hp | rfl) | hp
+    · split at hp
+      · simp at hp
+      · simp at hp; subst hp; exact writes_raw r data _ rfl L
+    · exact with_any_text_block_writes X r data j _ lc hstrict rfl rfl rfl rfl rfl hwith hsafe hj
+    · split at hp
+      · simp at hp
+      · simp at hp; subst hp; exact writes_raw r data _ rfl R
+  have hlen : ets.length + 12 ≤ renderFuel := by
+    have h1 : (if L = [] then [] else [((Elem.raw L, L) : Elem × Str)]).length ≤ 1 := by split <;> simp
+    have h2 : (if R = [] then [] else [((Elem.raw R, R) : Elem × Str)]).length ≤ 1 := by split <;> simp
+    simp only [ets, List.length_append, List.length_singleton]
+    have : renderFuel = 4000 := rfl
+    omega
+  have := render_writes_template r data none ets m { rootTemplate := none } hlen hw
+  simp only [Tmpl.name] at this ⊢
+  rw [this, htxt]
 
 end Hbs.C06
